@@ -3,6 +3,7 @@ package props
 import (
 	"encoding/json"
 	"fmt"
+	"os"
 	"regexp"
 	"sort"
 	"strings"
@@ -129,7 +130,9 @@ func c19Eval(c *Ctx) func([]*Spec) []c19Obs {
 				c.Inconclusive("workspace: " + err.Error())
 				return
 			}
-			defer w.Remove()
+			if os.Getenv("VERIF_KEEP") == "" {
+				defer w.Remove()
+			}
 			var names []string
 			evs := map[string]*ProgEval{}
 			for i := rs[ri].lo; i < rs[ri].hi; i++ {
@@ -155,8 +158,16 @@ func c19Eval(c *Ctx) func([]*Spec) []c19Obs {
 				}
 				return false
 			}
-			chk := w.GenAll(names, GenOpts{Cmd: "check", ForceSingle: unattributable})
-			shw := w.GenAll(names, GenOpts{Cmd: "show", ForceSingle: unattributable})
+			// programs that do not type-check (generator bugs, found by the bisecting gen run) would
+			// make check/show fail for the whole invocation: keep them out
+			var loaded []string
+			for _, n := range names {
+				if g := gen[n]; g != nil && g.Status == "done" {
+					loaded = append(loaded, n)
+				}
+			}
+			chk := w.GenAll(loaded, GenOpts{Cmd: "check", ForceSingle: unattributable})
+			shw := w.GenAll(loaded, GenOpts{Cmd: "show", ForceSingle: unattributable})
 			// group outputs: check stderr lines / show stdout blocks by program
 			for k, i := 0, rs[ri].lo; i < rs[ri].hi; i, k = i+1, k+1 {
 				n := names[k]
@@ -179,47 +190,34 @@ func c19Eval(c *Ctx) func([]*Spec) []c19Obs {
 				}
 				out[i] = o
 			}
-			// attribute: rerun-free parsing needs the raw outputs; GenAll keeps them only for single runs,
-			// so run check and show once more per chunk capturing the streams.
-			args := []string{"check"}
-			for _, n := range names {
-				args = append(args, "./progs/"+n+"/...")
-			}
-			cr := w.Env.Wire(w.Dir, 10*time.Minute, nil, args...)
-			for _, line := range strings.Split(cr.Stderr, "\n") {
-				if m := reProgPath.FindStringSubmatch(line); m != nil && strings.HasPrefix(line, "wire: ") {
-					for k, n := range names {
-						if n == m[1] {
-							out[rs[ri].lo+k].CheckErr = true
-							out[rs[ri].lo+k].CheckOut += line + "\n"
+			// attribute check's diagnostics and show's blocks to programs by the paths they mention
+			for k, n := range names {
+				o := &out[rs[ri].lo+k]
+				if co := chk[n]; co != nil {
+					for _, line := range strings.Split(co.GroupStderr, "\n") {
+						if m := reProgPath.FindStringSubmatch(line); m != nil && m[1] == n && strings.HasPrefix(line, "wire: ") {
+							o.CheckErr = true
+							o.CheckOut += line + "\n"
 						}
 					}
 				}
-			}
-			args[0] = "show"
-			sr := w.Env.Wire(w.Dir, 10*time.Minute, nil, args...)
-			for _, blk := range strings.Split(sr.Stdout, "\n\n") {
-				if strings.HasPrefix(strings.TrimLeft(blk, "\n"), "Injectors:") {
-					hdr := map[int]bool{}
-					for _, line := range strings.Split(blk, "\n") {
-						if m := reProgPath.FindStringSubmatch(line); m != nil {
-							for k, n := range names {
-								if n == m[1] {
-									if !hdr[k] {
-										hdr[k] = true
-										out[rs[ri].lo+k].ShowOut += "Injectors:\n"
+				if so := shw[n]; so != nil {
+					for _, blk := range strings.Split(so.GroupStdout, "\n\n") {
+						if strings.HasPrefix(strings.TrimLeft(blk, "\n"), "Injectors:") {
+							hdr := false
+							for _, line := range strings.Split(blk, "\n") {
+								if m := reProgPath.FindStringSubmatch(line); m != nil && m[1] == n {
+									if !hdr {
+										hdr = true
+										o.ShowOut += "Injectors:\n"
 									}
-									out[rs[ri].lo+k].ShowOut += line + "\n"
+									o.ShowOut += line + "\n"
 								}
 							}
+							continue
 						}
-					}
-					continue
-				}
-				if m := reProgPath.FindStringSubmatch(blk); m != nil {
-					for k, n := range names {
-						if n == m[1] {
-							out[rs[ri].lo+k].ShowOut += blk + "\n\n"
+						if m := reProgPath.FindStringSubmatch(blk); m != nil && m[1] == n {
+							o.ShowOut += blk + "\n\n"
 						}
 					}
 				}
